@@ -1,0 +1,6 @@
+//go:build !verif
+
+package stub
+
+// verifHook is a no-op unless built with the "verif" tag (verification harness amplifier points).
+func verifHook(string) {}
